@@ -164,6 +164,95 @@ theorem honest_delivered (S : SigScheme) (H : HashFam) (mid : Bytes → Bytes) (
   subst hm
   exact ⟨hi, hv, C01.honest_accepted S H sk (pubContext i.channel) data t s hpk hd hs⟩
 
+/-! ### whole packets and histories
+
+`handlePublishBatch` is the loop of `streamHandler.handlePublish` over one `Packet.Publish` list;
+a history of packets is the same fold continued on the router state the previous packet left. All
+theorems above quantify over EVERY router state, so they hold after any history; the statements
+below make the pairing "k-th result ↔ k-th entry" and the history independence explicit. -/
+
+/-- The results of a packet are paired with its entries, in order. -/
+theorem batch_results_in_order (verify : VerifyFn) (sum : SumFn) (mid : Bytes → Bytes) (r : Router) (prev : Bytes)
+    (ms : List SignedMsg) : ((handlePublishBatch verify sum mid r prev ms).2.map (·.1)) = ms := by
+  induction ms generalizing r with
+  | nil => rfl
+  | cons m t ih =>
+    simp only [handlePublishBatch, List.map_cons]
+    rw [ih]
+
+/-- Every entry of every packet is judged on its own bytes: an accepted entry — wherever it stands
+in the list, whatever rejected or valid entries precede it, whatever the router has seen before —
+is authentic for ITS OWN claimed sender and signed channel (same conclusion as
+`delivered_authentic_and_on_channel`, for the message the result is paired with). -/
+theorem batch_delivered_authentic (S : SigScheme) (H : HashFam) (mid : Bytes → Bytes) (r : Router) (prev : Bytes)
+    (ms : List SignedMsg) (m : SignedMsg) (ch sender data : Bytes) (n : Nat) (fw : List Tpl)
+    (h : (m, PubRes.accepted ch sender data n, fw) ∈ (handlePublishBatch S.verify H.sum mid r prev ms).2) :
+    ∃ i pk, Inner.unmarshal m.data = some i ∧ i.channel = ch ∧ i.data = data ∧ ch ≠ [] ∧
+      idB58Decode m.fromPeerId = some sender ∧ extractPublicKey sender = some pk ∧
+      (∃ sk d, S.pub sk = pk ∧ H.sum m.signature.hashType m.data = some d ∧
+        m.signature.sigData = S.sign sk (signBody (pubContext ch) m.signature.hashType d)) := by
+  induction ms generalizing r with
+  | nil => simp [handlePublishBatch] at h
+  | cons m0 t ih =>
+    simp only [handlePublishBatch, List.mem_cons] at h
+    rcases h with h | h
+    · injection h with hm hrest
+      injection hrest with hres hfw
+      subst hm
+      obtain ⟨i, pk, a, b, c, d, e, f, g, _⟩ :=
+        delivered_authentic_and_on_channel S H mid r (handlePublishOne S.verify H.sum mid r prev m).1 prev m ch sender data n
+          (handlePublishOne S.verify H.sum mid r prev m).2.2 (by rw [hres])
+      exact ⟨i, pk, a, b, c, d, e, f, g⟩
+    · exact ih _ h
+
+/-- An entry that is not accepted is not forwarded, wherever it stands. -/
+theorem batch_rejected_not_forwarded (verify : VerifyFn) (sum : SumFn) (mid : Bytes → Bytes) (r : Router) (prev : Bytes)
+    (ms : List SignedMsg) (m : SignedMsg) (res : PubRes) (fw : List Tpl)
+    (h : (m, res, fw) ∈ (handlePublishBatch verify sum mid r prev ms).2)
+    (hres : ∀ ch s d n, res ≠ .accepted ch s d n) : fw = [] := by
+  induction ms generalizing r with
+  | nil => simp [handlePublishBatch] at h
+  | cons m0 t ih =>
+    simp only [handlePublishBatch, List.mem_cons] at h
+    rcases h with h | h
+    · injection h with hm hrest
+      injection hrest with hr hfw
+      subst hm
+      exact (handlePublishOne_not_accepted verify sum mid r _ prev m res fw (by rw [hr, hfw]) hres).2
+    · exact ih _ h
+
+/-- Re-using an authentic signature: whatever came before (`pre` — e.g. the honest message itself,
+dropped because its channel is not subscribed, or delivered, or replayed) and whatever follows, an
+entry that carries the signature bytes of an honest message but a body with another digest is
+rejected: its result in the packet is `rejected`, with nothing forwarded. -/
+theorem batch_reused_signature_rejected (S : SigScheme) (H : HashFam) (sk ch data : Bytes) (t : Int) (s : Signature)
+    (hs : newSignature (S.sign sk) H.sum (pubContext ch) t data = some s)
+    (mid : Bytes → Bytes) (r : Router) (prev : Bytes) (pre post : List SignedMsg) (m' : SignedMsg)
+    (hsig : m'.signature.sigData = s.sigData) (hdig : H.sum t m'.data ≠ H.sum t data) :
+    ∃ e, (handlePublishBatch S.verify H.sum mid r prev (pre ++ m' :: post)).2[pre.length]? = some (m', .rejected e, []) := by
+  induction pre generalizing r with
+  | nil =>
+    obtain ⟨e, he⟩ := tampered_rejected S H sk ch data t s hs mid r prev m' hsig hdig
+    exact ⟨e, by simp [handlePublishBatch, he]⟩
+  | cons m0 rest ih =>
+    obtain ⟨e, he⟩ := ih (handlePublishOne S.verify H.sum mid r prev m0).1
+    exact ⟨e, by simpa [handlePublishBatch] using he⟩
+
+/-- …and likewise when the body names another channel than the one the signature was made for
+(the signed message may have been dropped as "not subscribed" a moment before). -/
+theorem batch_reused_signature_retargeted_rejected (S : SigScheme) (H : HashFam) (sk ch data : Bytes) (t : Int) (s : Signature)
+    (hs : newSignature (S.sign sk) H.sum (pubContext ch) t data = some s)
+    (mid : Bytes → Bytes) (r : Router) (prev : Bytes) (pre post : List SignedMsg) (m' : SignedMsg) (i' : Inner)
+    (hsig : m'.signature.sigData = s.sigData) (hi : Inner.unmarshal m'.data = some i') (hne : i'.channel ≠ ch) :
+    ∃ e, (handlePublishBatch S.verify H.sum mid r prev (pre ++ m' :: post)).2[pre.length]? = some (m', .rejected e, []) := by
+  induction pre generalizing r with
+  | nil =>
+    obtain ⟨e, he⟩ := retargeted_rejected S H sk ch data t s hs mid r prev m' i' hsig hi hne
+    exact ⟨e, by simp [handlePublishBatch, he]⟩
+  | cons m0 rest ih =>
+    obtain ⟨e, he⟩ := ih (handlePublishOne S.verify H.sum mid r prev m0).1
+    exact ⟨e, by simpa [handlePublishBatch] using he⟩
+
 /-- Non-vacuity (toy scheme): an honest message for channel "c" is accepted by a router
 subscribed to "c" and handed to its two subscriptions. -/
 example : ∃ s m r' fw,
@@ -179,5 +268,23 @@ example : ∃ s m r' fw,
     [10, 1, 97, 18, 1, 99] 1 s { data := [97], channel := [99] } 2 (List.length_replicate ..) hi (by decide)
     (by decide) hs (by decide) _ rfl (by simp)
   exact ⟨s, _, _, _, hs, rfl, hd⟩
+
+/-- Non-vacuity of the batch theorems (toy scheme): the honest message for channel "c" (not
+subscribed here: dropped), then its signature re-used over a body naming the subscribed channel
+"d": the second entry is rejected, whatever follows. -/
+example : ∃ s e, newSignature (ToySig.sign (List.replicate 32 4)) ToyHash.sum (pubContext [99]) 1 [10, 1, 97, 18, 1, 99] = some s ∧
+    (handlePublishBatch ToySig.verify ToyHash.sum id { channels := [([100], 1)] } []
+      ([({ fromPeerId := idB58Encode (idFromPublicKey (List.replicate 32 4)), signature := s, data := [10, 1, 97, 18, 1, 99] } : SignedMsg)] ++
+        ({ fromPeerId := idB58Encode (idFromPublicKey (List.replicate 32 4)), signature := s, data := [10, 1, 98, 18, 1, 100] } : SignedMsg) :: [])).2[1]? =
+      some (({ fromPeerId := idB58Encode (idFromPublicKey (List.replicate 32 4)), signature := s, data := [10, 1, 98, 18, 1, 100] } : SignedMsg), .rejected e, []) := by
+  have h : (newSignature (ToySig.sign (List.replicate 32 4)) ToyHash.sum (pubContext [99]) 1 [10, 1, 97, 18, 1, 99]).isSome = true := by
+    decide
+  obtain ⟨s, hs⟩ := Option.isSome_iff_exists.mp h
+  obtain ⟨e, he⟩ := batch_reused_signature_rejected ToySig ToyHash (List.replicate 32 4) [99] [10, 1, 97, 18, 1, 99] 1 s hs id
+    { channels := [([100], 1)] } []
+    [({ fromPeerId := idB58Encode (idFromPublicKey (List.replicate 32 4)), signature := s, data := [10, 1, 97, 18, 1, 99] } : SignedMsg)] []
+    ({ fromPeerId := idB58Encode (idFromPublicKey (List.replicate 32 4)), signature := s, data := [10, 1, 98, 18, 1, 100] } : SignedMsg)
+    rfl (by show ToyHash.sum 1 [10, 1, 98, 18, 1, 100] ≠ ToyHash.sum 1 [10, 1, 97, 18, 1, 99]; decide)
+  exact ⟨s, e, hs, he⟩
 
 end Bifrost.Props.C27
